@@ -76,9 +76,9 @@ CLAIMS = {
         technique='bounded exhaustive enumeration against the object itself (stand-in), with contract-proved core functions (PyVC + z3)'),
     'C02': dict(category='other', design_ref='DESIGN.md section 3 C02',
         text='Proved: language of every lexical regex == specification grammar (two inclusion queries each, concrete witness strings), _validate_type / IntegerProperty.clean iff '
-             'contracts, ten timestamp-order co-constraints, the three inter-property helpers of _STIXBase (iff, nested loop invariants), strict-mode refusal of custom content in List/Hashes/Reference cleaners, validators read no mutable module state. '
+             'contracts, ten timestamp-order co-constraints, the three inter-property helpers of _STIXBase (iff, nested loop invariants), strict-mode refusal of custom content in List/Hashes/Reference/Extensions cleaners, Enum/Hex/Dictionary/Float cleaners (iff), the raw-input prefix of _STIXBase.__init__ as a region contract (extensions scan invariant: unknown-property refusal iff some name is neither declared nor contributed by a registered toplevel-property-extension), validators read no mutable module state. '
              'Exhaustive table invariant (1382 property slots == frozen model). Bounded fault enumeration: (type, property, corruption kind) -> error or output accepted by an independent validator.',
-        note='The frozen tables were bootstrapped from the tree after the fix commits (a regression oracle reviewed where the library was known to deviate); _STIXBase.__init__ composition is bounded only; pattern validity delegated to stix2patterns.',
+        note='The frozen tables were bootstrapped from the tree after the fix commits (a regression oracle reviewed where the library was known to deviate); the per-property loop of _STIXBase.__init__ (after the cut of the region contract) is bounded only; pattern validity delegated to stix2patterns.',
         technique='regular-language equivalence and cleaner contracts by deductive verification (PyVC + z3 regex/LIA); exhaustive table comparison; bounded fault enumeration with an independent validator'),
     'C03': dict(category='other', design_ref='DESIGN.md section 3 C03',
         text='Proved acceptance halves (every string of each specification grammar accepted; valid integers/type names accepted; co-constraints raise only when violated; dispatch). '
@@ -87,7 +87,7 @@ CLAIMS = {
         note='Known finding: timestamps with >= 7 fraction digits are rejected. Completeness of the generator w.r.t. the prose specification is not claimed.',
         technique='deductive verification of acceptance directions (PyVC + z3); bounded generator-driven acceptance/preservation check'),
     'C04': dict(category='other', design_ref='DESIGN.md section 3 C04',
-        text='Proved: custom-flag protocol of ListProperty / HashesProperty / ReferenceProperty.clean (prefix invariants: flag == OR over parts, strict => none) and dict_to_stix2 unknown-type handling. '
+        text='Proved: custom-flag protocol of ListProperty / HashesProperty / ReferenceProperty / ExtensionsProperty.clean (prefix invariants: flag == OR over parts, strict => none; the reference cleaner passes its own spec version to every registry query), dict_to_stix2 unknown-type handling, and the unknown-property decision of _STIXBase.__init__ (region contract). '
              'Bounded: every valid object x injection site x custom kind x both switch settings: strict refusal, and has_custom <=> strict re-parse of the serialization refused.',
         note='Known finding: the documented custom_properties keyword admits custom properties in strict mode. Unregistered extension-definition extensions are sanctioned by the library (not treated as custom).',
         technique='loop-invariant proofs of the customisation protocol (PyVC + z3); bounded injection enumeration'),
@@ -126,7 +126,7 @@ CLAIMS = {
         technique='bounded differential testing against an independent specification function'),
     'C19': dict(category='other', design_ref='DESIGN.md section 3 C19',
         text='Proved: each _register_* is exact and exclusive (duplicate => DuplicateRegistrationError with no registry store; success => exactly one store into the chosen version/category map, name was free); '
-             'type-name grammar == specification per version; validators read no mutable module state. Bounded: registration histories in fresh subprocesses, version scoping of parse, round trip of registered types, reference-property naming rule.',
+             'type-name grammar == specification per version; the extensions scan of _STIXBase.__init__ counts every registered toplevel-property-extension entry whatever its position (region contract); validators read no mutable module state. Bounded: registration histories in fresh subprocesses, version scoping of parse, round trip of registered types, reference-property naming rule.',
         note='Known finding: custom property names are checked for their first character only.',
         technique='deductive verification of the registration functions with ghost store records (PyVC + z3); bounded history enumeration in subprocesses'),
 }
